@@ -128,6 +128,34 @@ class Lab:
                              "off": int(m.group(5), 16), "size": int(m.group(6), 16)})
         return secs
 
+    def map_lmas(self, mapfile="out.map"):
+        """output section -> load address as GNU ld itself recorded it in the link map (VMA when no `load address` is
+        printed); the program headers cannot tell two overlaid sections with the same VMA apart"""
+        try:
+            text = open(self.path(mapfile)).read()
+        except OSError:
+            return {}
+        i = text.find("Linker script and memory map")
+        if i < 0:
+            return {}
+        out = {}
+        lines = text[i:].splitlines()
+        k = 0
+        while k < len(lines):
+            line = lines[k]
+            m = re.match(r"^(\S+)(\s+0x[0-9a-f]+\s+0x[0-9a-f]+.*)?$", line)
+            if m and not line.startswith(" ") and not m.group(1).startswith(("0x", "LOAD", "OUTPUT", "START", "END", "Linker", "/DISCARD/")):
+                rest = m.group(2)
+                if rest is None and k + 1 < len(lines) and re.match(r"^\s+0x[0-9a-f]+\s+0x[0-9a-f]+", lines[k + 1]):
+                    rest = lines[k + 1]
+                    k += 1
+                if rest:
+                    mm = re.match(r"\s+0x([0-9a-f]+)\s+0x([0-9a-f]+)(?:\s+load address 0x([0-9a-f]+))?", rest)
+                    if mm:
+                        out[m.group(1)] = int(mm.group(3) or mm.group(1), 16)
+            k += 1
+        return out
+
     def segments(self, elf="out.elf"):
         rc, out, err = sh(["readelf", "-lW", elf], self.dir)
         segs = []
